@@ -20,7 +20,8 @@ class C03(object):
     assumptions = ['a ConvergenceError on either side makes the pair inconclusive (reduction legitimately changes '
                    'conditioning); any other exception on exactly one side is a violation',
                    'cyclic class: agreement bound 1e-8*max(1,|v|) with both runs at tolerance 1e-13']
-    required_counters = ('pairs.compared', 'values.compared', 'alias.pairs', 'ic_on_alias.pairs', 'model_text.pairs', 'after_earlier_parse.pairs', 'hygiene_names.pairs', 'traced_step.pairs', 'steady_search_accepted.pairs')
+    required_counters = ('pairs.compared', 'values.compared', 'alias.pairs', 'ic_on_alias.pairs', 'model_text.pairs', 'after_earlier_parse.pairs', 'hygiene_names.pairs', 'traced_step.pairs', 'steady_search_accepted.pairs',
+                         'user_functions_in_derived_variables.pairs', 'after_variant_with_same_names.pairs')
 
     def n_cases(self, tier):
         return 300 if tier == 'quick' else 30000
@@ -58,7 +59,33 @@ class C03(object):
                 extra.append('%s(0) = 0.0' % 'hyg_w')
             case['text'] = '\n'.join(extra) + '\n' + case['text']
             case['hygiene'] = nm
-        if rng.random() < 0.3:
+        if idx % 10 in (2, 5):
+            # user-defined functions (AddFunction) called by variables nothing else depends on; one of them is named
+            # like a math function and must win over it in every equation, reduced away or not
+            x = spec['simul'][0]['name']
+            case['text'] = 'ufd_a = half(%s) + 1.0\nufd_b = log(%s) - half(ufd_c)\nufd_c = 0.25*%s\n' % (x, x, x) + case['text']
+            case['funcs'] = True
+        if idx % 10 in (4, 9):
+            # the solvers first solve a VARIANT of the system: same names, other definitions of aliases' targets,
+            # derived variables and constants
+            import copy as _copy
+            var = _copy.deepcopy(spec)
+            for sm in var['simul']:
+                sm['const'] = sm['const'] * 0.5 + 1.0
+            for cst in var['consts']:
+                cst['value'] = cst['value'] + 1.0
+            for dd in var['decos']:
+                dd['expr'] = '2.0*(' + dd['expr'] + ') + 1.0'
+            pool = [s_['name'] for s_ in var['simul']]
+            for al in var['aliases']:
+                if al['target'] in pool and len(pool) > 1:
+                    al['target'] = pool[(pool.index(al['target']) + 1) % len(pool)]
+            try:
+                case['first'] = G.render(var)
+                case['first_is_variant'] = True
+            except Exception:
+                pass
+        elif rng.random() < 0.3:
             # the solvers have already read something else (or the same text) before they are given the system
             if rng.random() < 0.5:
                 case['first'] = case['text']
@@ -72,10 +99,13 @@ class C03(object):
             case['steady'] = {'T': rng.choice([30, 100, 300]), 'tol': rng.choice([1e-4, 1e-6])}
         return case
 
-    def solve(self, text, reduction, first=None, trace_step=None, steady=None):
+    def solve(self, text, reduction, first=None, trace_step=None, steady=None, funcs=False):
         from sfc_models.equation_solver import EquationSolver, ConvergenceError
         s = EquationSolver(run_equation_reduction=reduction)
         s.MaxIterations = 5000
+        if funcs:
+            s.AddFunction('half', lambda v: 0.5 * v)
+            s.AddFunction('log', lambda v: 0.125 * v + 3.0)      # deliberately NOT the logarithm
         if trace_step is not None:
             s.TraceStep = trace_step
         if steady is not None:
@@ -86,6 +116,11 @@ class C03(object):
             with contextlib.redirect_stdout(io.StringIO()):
                 if first is not None:
                     s.ParseString(first)
+                    if first != text:
+                        try:
+                            s.SolveEquation()
+                        except ValueError:
+                            pass
                 s.ParseString(text)
                 s.SolveEquation()
         except ConvergenceError as e:
@@ -158,8 +193,8 @@ class C03(object):
             return self.run_model_text(case)
         rec = monitors.Recorder()
         spec = case['spec']
-        oa, a = self.solve(case['text'], False, case.get('first'), case.get('trace_step'), case.get('steady'))
-        ob, b = self.solve(case['text'], True, case.get('first'), case.get('trace_step'), case.get('steady'))
+        oa, a = self.solve(case['text'], False, case.get('first'), case.get('trace_step'), case.get('steady'), case.get('funcs'))
+        ob, b = self.solve(case['text'], True, case.get('first'), case.get('trace_step'), case.get('steady'), case.get('funcs'))
         if case.get('first') is not None:
             rec.count('after_earlier_parse.pairs')
         if case.get('hygiene'):
@@ -180,6 +215,18 @@ class C03(object):
         rec.count('pairs.compared')
         if case.get('trace_step'):
             rec.count('traced_step.pairs')
+        if case.get('funcs'):
+            rec.count('user_functions_in_derived_variables.pairs')
+            # the custom 'log' must have been used (value of ufd_b under the registered functions)
+            x = spec['simul'][0]['name']
+            for k in range(1, len(a[x])):
+                for side, ser in (('unreduced', a), ('reduced', b)):
+                    expv = (0.125 * ser[x][k] + 3.0) - 0.5 * (0.25 * ser[x][k])
+                    if abs(ser['ufd_b'][k] - expv) > 1e-9 * max(1.0, abs(expv)):
+                        rec.violate('registered_function_not_used', {'side': side, 'k': k, 'got': ser['ufd_b'][k], 'expected': expv})
+                        break
+        if case.get('first_is_variant'):
+            rec.count('after_variant_with_same_names.pairs')
         if case.get('steady'):
             rec.count('steady_search_accepted.pairs')
         if spec['aliases']:
